@@ -1559,9 +1559,13 @@ impl TypeLayout {
         }
 
         match (lhs.as_ref(), rhs.as_ref(), &flags.executing_class) {
-            (Self::Generic(generic), other, _) | (other, Self::Generic(generic), _) => {
-                generic.is_compatible(other, &flags)
-            }
+            (Self::Generic(generic), other, _) => generic.is_compatible(other, &flags),
+            // a generic on the SUPPLIED side that already stands for a type: keep the expected type
+            // on the left, the comparison is not symmetric for optionals
+            (other, Self::Generic(generic), _) => match generic.try_get_lock() {
+                Some(stands_for) => other.eq_complex(&stands_for, &*flags),
+                None => generic.is_compatible(other, &flags),
+            },
             (Self::ClassSelf(Some(known)), other, ..) => {
                 TypeLayout::Class(known.to_owned()).eq_complex(other, flags)
             }
@@ -1800,7 +1804,8 @@ impl TypeLayout {
             _ => (),
         }
 
-        if matches!(op, Eq | Neq) && lhs == other && lhs.supports_equ() {
+        // (`==` is symmetric, type compatibility is not: `[T...] == [T?...]` is fine either way round)
+        if matches!(op, Eq | Neq) && (lhs == other || other == lhs) && lhs.supports_equ() {
             return Some(TypeLayout::Native(NativeType::Bool));
         }
 
